@@ -165,7 +165,7 @@ def rec_obs(tier, seed):
                       unwind=70, solver=KISSAT, incl_first=['include/noasm'], timeout=3000, mem=10, cost=60, tier='quick' if quick else 'thorough', functions=recf,
                       note='nd=%d, %d parity blocks, lost %s, parities used %s; unused parities alias the last lost block and must come back untouched' % (nd, npt, ids, ips)))
     for n in (1, 2):
-        obs.append(Ob('rec.invert.n%d' % n, R, 'h_invert', ['raid/raid.c', 'raid/tables.c'], defs={'INV_N': n}, unwind=8, solver=KISSAT, timeout=3000, mem=8, cost=40,
+        obs.append(Ob('rec.invert.n%d' % n, R, 'h_invert', ['raid/raid.c', 'raid/tables.c'], defs={'INV_N': n}, unwind=8, solver=KISSAT, timeout=6000, mem=8, cost=40, tier='quick' if n == 1 else 'thorough',
                       functions=['raid_invert (raid/raid.c)', 'mul (raid/gf.h)', 'inv (raid/gf.h)'], kind='bounded', bound='n = %d (n <= 6 in the code)' % n,
                       note='every %dx%d matrix without zero pivot' % (n, n)))
     obs.append(Ob('rec.dispatch.raid_rec', R, 'h_dispatch', ['raid/raid.c', 'raid/tables.c'], unwind=8, timeout=900, mem=6, cost=10,
@@ -192,8 +192,77 @@ def c03(tier, seed):
     return rec_obs(tier, seed) + table_obs(tier)
 
 
+# ---------------------------------------------------------------- scrub plan (C15)
+SCRUB_REGION = dict(region='scrub_limits', file='cmdline/scrub.c', begin='/* no more than the full count */', end='log_tag("count_limit:%u\\n", countlimit);',
+                    max_lines=30, expect_loops=2,
+                    proto='static void region_scrub_limits(struct snapraid_plan *psp, block_off_t *countlimitp, block_off_t count, time_t *timemap, time_t recentlimit)',
+                    prologue='\tstruct snapraid_plan ps = *psp;\n\tblock_off_t countlimit = *countlimitp;', epilogue='\t*psp = ps;\n\t*countlimitp = countlimit;')
+
+
+def c15(tier, seed):
+    S = 'harness/h_scrub.c'
+    sf = lambda *f: [x + ' (cmdline/scrub.c)' for x in f]
+    obs = [
+        Ob('scrub.block_is_enabled', S, 'h_block_is_enabled', route='dfcc', replace=['info_get'], inject=[SCRUB_REGION], unwind=4, small_path=True,
+           functions=sf('block_is_enabled') + ['info_get_bad / info_get_time / info_get_justsynced (cmdline/elem.h)'], timeout=600, mem=6, cost=5, replay=False,
+           note='every plan, info word, position, time limit and tie counter (all symbolic); info_get replaced by its contract via goto-instrument --dfcc'),
+        Ob('scrub.info_word', S, 'h_info', inject=[SCRUB_REGION], unwind=4, small_path=True, timeout=600, mem=6, cost=3,
+           functions=['info_make / info_get_time / info_get_bad / info_get_rehash / info_get_justsynced / info_set_bad / info_set_rehash (cmdline/elem.h)']),
+        Ob('scrub.limits.region', S, 'h_limits', inject=[SCRUB_REGION], unwind=10, small_path=True, timeout=900, mem=6, cost=10, kind='bounded',
+           bound='sorted time map of at most 8 entries (TM_MAX); requested share, age limit and times symbolic',
+           functions=['state_scrub: region "no more than the full count" .. "count_limit" (cmdline/scrub.c, extracted mechanically)'],
+           note='region extraction drops everything outside the 25 lines and turns ps / countlimit / count / timemap / recentlimit into parameters'),
+    ]
+    for c, bmax in ((100, 100), (12, 1)):
+        obs.append(Ob('scrub.md.c%d' % c, S, 'h_md', inject=[SCRUB_REGION], defs={'MD_C': c, 'MD_BMAX': bmax}, unwind=4, small_path=True, solver=KISSAT, timeout=900, mem=6, cost=10,
+                      functions=sf('md'), note='divisor %d as at the call site, a symbolic 32-bit, b <= %d' % (c, bmax)))
+    return obs
+
+
+def crc_obs(tier):
+    C = 'harness/h_crc.c'
+    obs = [Ob('crc.tables', C, 'h_crc_tables', ['cmdline/util.c'], unwind=10, timeout=600, mem=4, cost=3,
+              functions=['CRC32C_0..3 (cmdline/util.c)'], note='all 256 entries of the four tables, symbolic index')]
+    obs.append(Ob('crc.lemma.L1', C, 'h_crc_l1', ['cmdline/util.c'], unwind=10, timeout=600, mem=4, cost=3, functions=['CRC32C_0..3 (cmdline/util.c)']))
+    obs.append(Ob('crc.lemma.L2', C, 'h_crc_l2', ['cmdline/util.c'], unwind=10, solver=KISSAT, timeout=900, mem=4, cost=5, functions=['spec_crc_4zero (harness/h_crc.c, specification only)']))
+    for n in (0, 1, 3, 4, 5, 8, 9) + ((11, 12, 13, 16) if tier == 'thorough' else ()):
+        obs.append(Ob('crc.gen.len%d' % n, C, 'h_crc_gen', ['cmdline/util.c'], defs={'CRC_LEN': n}, unwind=20, solver=KISSAT, timeout=1800, mem=6, cost=10 + n,
+                      tier='quick' if n <= 9 else 'thorough', kind='bounded', bound='length %d bytes (every initial value and content); the 4-byte fast path and the tail loop are both exercised' % n,
+                      functions=['crc32c_gen_plain (cmdline/util.h)', 'crc32c_gen (cmdline/util.c)']))
+    return obs
+
+
+# ---------------------------------------------------------------- filters (C18)
+def c18(tier, seed):
+    F = 'harness/h_filter.c'
+    ef = lambda *f: [x + ' (cmdline/elem.c)' for x in f]
+    return [
+        Ob('filter.alloc_file', F, 'h_filter_alloc', unwind=8, small_path=True, timeout=900, mem=6, cost=10, kind='bounded',
+           bound='pattern strings of at most 5 bytes, every byte value', functions=ef('filter_alloc_file') + ['pathimport / pathcpy (cmdline/support.c) by inclusion of their callers only'],
+           srcs=['cmdline/support.c']),
+    ] + [
+        Ob('filter.rule_list.%s.nf%d' % (('path', 'subdir', 'emptydir')[w], n), F, 'h_filter_list', ['cmdline/support.c'], defs={'NFX': n, 'WHICH': w}, unwind=9, small_path=True,
+           timeout=1500, mem=8, cost=5 + 10 * n, kind='bounded', tier='quick' if n <= 2 else 'thorough',
+           bound='list of exactly %d rules (any direction / disk / name / dir / rooted kind), element paths of 1..3 components, every truth table of the glob matcher' % n,
+           functions=ef(('filter_path', 'filter_subdir', 'filter_emptydir')[w], 'filter_element', 'filter_recurse', 'filter_apply'))
+        for w in (0, 1, 2) for n in (0, 1, 2, 3)
+    ]
+
+
+# ---------------------------------------------------------------- report escaping (C20)
+def c20(tier, seed):
+    E = 'harness/h_esc.c'
+    return [
+        Ob('esc.tag', E, 'h_esc_tag', ['cmdline/support.c'], unwind=14, timeout=900, mem=6, cost=5, kind='bounded',
+           bound='strings of at most 5 bytes, every byte value', functions=['esc_tag (cmdline/support.c)']),
+        Ob('esc.shell', E, 'h_esc_shell', ['cmdline/support.c'], unwind=14, timeout=900, mem=6, cost=5, kind='bounded',
+           bound='strings of at most 5 bytes, every byte value', functions=['esc_shell / esc_shell_multi (cmdline/support.c)'],
+           expect_fail=['esc_shell leaves no TAB or NEWLINE unquoted']),
+    ]
+
+
 def c09(tier, seed):
-    return stream_obs(['h_sgetb32', 'h_sgetb64', 'h_sgetble32', 'h_sgetbs'])
+    return stream_obs(['h_sgetb32', 'h_sgetb64', 'h_sgetble32', 'h_sgetbs']) + crc_obs(tier)
 
 
 def c10(tier, seed):
@@ -203,6 +272,9 @@ def c10(tier, seed):
 PROPS = {
     'C17': dict(level='proof', obligations=c17, explanation='', trusted_base=[], assumptions=[], not_covered=[]),
     'C03': dict(level='proof', obligations=c03, explanation='', trusted_base=[], assumptions=[], not_covered=[]),
+    'C15': dict(level='other', obligations=c15, explanation='', trusted_base=[], assumptions=[], not_covered=[]),
+    'C18': dict(level='other', obligations=c18, explanation='', trusted_base=[], assumptions=[], not_covered=[]),
+    'C20': dict(level='other', obligations=c20, explanation='', trusted_base=[], assumptions=[], not_covered=[]),
     'C09': dict(level='other', obligations=c09, explanation='', trusted_base=[], assumptions=[], not_covered=[]),
     'C10': dict(level='other', obligations=c10, explanation='', trusted_base=[], assumptions=[], not_covered=[]),
     'C02': dict(level='proof', obligations=c02,
@@ -280,3 +352,31 @@ NOT_YET = {
     'C19': 'not built yet in this session',
     'C20': 'not built yet in this session',
 }
+
+PROPS['C15'].update(
+    explanation='block_is_enabled (scrub.c) follows the documented decision table for EVERY plan / info word / position / time limit / tie counter (info_get replaced by its contract with goto-instrument --dfcc): unused stripes never, bad stripes always, full = all used, new = just-synced only, bad = only bad, auto = time < limit always, == limit for the first lastlimit stripes (the counter is incremented exactly then), > limit never. '
+                'The limit computation of state_scrub (mechanically extracted region) over a sorted time map: never more than the requested share nor the array, nothing younger than the age limit, cut short only by the age limit, timelimit/lastlimit consistent so that exactly countlimit stripes are selected, oldest first. md() == ceil(a*b/c) at both call sites. info word helpers are bit exact (refresh keeps the time at 8 s granularity and clears all marks; set_bad touches only the bad bit).',
+    trusted_base=['region extraction (tools/inject.py extract_region): anchors "/* no more than the full count */" .. "count_limit" in cmdline/scrub.c', 'qsort (libc) assumed to sort: the region is driven with an arbitrary SORTED map'],
+    assumptions=['time map bounded to 8 entries in the region obligation (labelled bounded)', 'the mark-update chain of state_scrub_process (bad iff silent or I/O error; refresh iff no error at all) is NOT yet under an obligation', 'eventual coverage over repeated runs is a liveness statement: not addressed'],
+    not_covered=['state_scrub_process loop body (reader threads, error classification)', 'data/parity untouched by scrub (process-level frame)', 'liveness of repeated scrubs'])
+PROPS['C18'].update(
+    explanation='filter_alloc_file accepts exactly the documented pattern forms (FILE, DIR/, /PATH/FILE, /PATH/DIR/; no ".", ".." or empty components; rooted only with a leading slash), classifies them and strips exactly the trailing slash, for every pattern string of at most 5 bytes. '
+                'filter_path / filter_subdir / filter_emptydir evaluate a rule list as documented - rules in order, first match decides, without a match the opposite of the last rule, directories kept for traversal, name patterns offered every path component of the right kind, rooted patterns the path from the disk root with FNM_PATHNAME - for every list of 0..2 (thorough: 3) rules of any kind and EVERY behaviour of the glob matcher (fnmatch replaced by an arbitrary deterministic truth table).',
+    trusted_base=['libc fnmatch (HAVE_FNMATCH=1; cmdline/fnmatch.c is not the code that runs) - only its determinism is assumed', 'malloc_nofail stub'],
+    assumptions=['bounded: patterns <= 5 bytes, lists <= 3 rules, probe path a/b/c', 'filter_content (printf based), hidden-file rule, -f/-d/-m/-e selection in state_filter and "nothing outside the selection is written" are NOT yet under an obligation'],
+    not_covered=['filter_content', 'filter_hidden', 'state_filter', 'scan.c call sites'])
+PROPS['C20'].update(
+    explanation='Only the escaping layer of the reports: esc_tag is reversible for every string (<= 5 bytes, all byte values), never emits a raw newline / carriage return / colon and only the escapes \\n \\r \\d \\\; esc_shell output read back under POSIX shell quoting rules is the original single word, no blank or metacharacter is left unquoted - EXCEPT tab and newline, which it leaves raw (KNOWN-FINDING, shown with the real binary: `snapraid list` prints a file named a<LF>b on two lines).',
+    trusted_base=['POSIX shell quoting rules as transcribed in harness/h_esc.c'],
+    assumptions=['strings bounded to 5 bytes (every escape is per character, independent of position)', 'list / dup / status / pool bodies (printf + file system over tommy lists) are NOT under an obligation'],
+    not_covered=['list.c, dup.c, status.c, pool.c bodies', 'hash_compare of dup'])
+MANIFEST_TEXT.update({
+    'C15': dict(level_text='The selection rule of every plan and the limit arithmetic are per-call statements and are decided for all inputs (decision table) / all sorted maps up to 8 entries (limits). The per-stripe mark update inside the 700-line scrub loop and liveness are not claimed - hence level other with the exact functions listed.',
+                design_ref='DESIGN.md section 4 C15', level_note='region extraction for the limit computation; qsort assumed; mark-update chain and liveness not covered', technique='CBMC contracts (dfcc replace) + driver on real cmdline/scrub.c, mechanically extracted region'),
+    'C18': dict(level_text='The rule-evaluation order and the pattern classification are decided on the real elem.c for every bounded rule list against an arbitrary glob matcher; selection options and the write frame are not claimed - level other.',
+                design_ref='DESIGN.md section 4 C18', level_note='libc fnmatch assumed deterministic; bounded lists/patterns; state_filter not covered', technique='CBMC drivers on real cmdline/elem.c with fnmatch as uninterpreted truth table'),
+    'C20': dict(level_text='Narrow: reversibility of the two escaping functions every report goes through; one genuine finding recorded (tab/newline unquoted). The report bodies themselves are printf loops over containers and are not claimed.',
+                design_ref='DESIGN.md section 4 C20', level_note='strings <= 5 bytes; POSIX quoting rules transcribed by hand; report bodies not covered', technique='CBMC drivers on real cmdline/support.c esc_tag / esc_shell_multi with spec decoders'),
+})
+for k in ('C15', 'C18', 'C20'):
+    NOT_YET.pop(k, None)
